@@ -9,6 +9,7 @@
 #include <cstdio>
 #include <cstdlib>
 #include <unistd.h>
+#include <fcntl.h>
 #include <poll.h>
 #include <signal.h>
 #include <sys/wait.h>
@@ -133,6 +134,7 @@ static Json execPlan(const Json &plan, double timeoutS, bool trace) {
     if (pid == 0) {
         close(fd[0]);
         dup2(efd, 2);
+        { int nul = open("/dev/null", O_WRONLY); if (nul >= 0) { dup2(nul, 1); close(nul); } }   // the libraries print diagnostics to stdout
         struct rlimit rl = {0, 0}; setrlimit(RLIMIT_CORE, &rl);
         Json r;
         try {
